@@ -17,7 +17,7 @@ theorem translated_permute_eq (v p : List Nat) :
   rw [List.getD_eq_getElem?_getD, List.getD_eq_getElem?_getD, List.getElem?_map]
   cases v[i]? <;> simp
 
-theorem contains_map_ofNat (qs : List Nat) (i : Nat) :
+private theorem contains_map_ofNat (qs : List Nat) (i : Nat) :
     (qs.map Int.ofNat).contains (Int.ofNat i) = qs.contains i := by
   induction qs with
   | nil => rfl
